@@ -110,11 +110,11 @@ Definition validate_bft (c : cfg) (rs : list resp) : inner :=
     else (ok, ratio, ratio, fails).
 
 (* ---------- validate_trust_weighted ---------- *)
-(* weight of one response: its trust score (unknown = CG_UNKNOWN_WEIGHT), never below zero
-   (f64::max(0.0), which also maps NaN to 0) *)
+(* weight of one response: its trust score (unknown = CG_UNKNOWN_WEIGHT) kept within [0, 1]
+   (.max(0.0).min(1.0); f64::max also maps NaN to 0) *)
 Definition weight_of (r : resp) : Q :=
   let w := match r_trust r with Some t => t | None => CG_UNKNOWN_WEIGHT end in
-  if Qle_bool 0 w then w else 0.
+  if Qle_bool 0 w then (if Qle_bool w 1 then w else 1) else 0.
 
 Definition total_weight (rs : list resp) : Q :=
   fold_left (fun acc r => acc + weight_of r) rs 0.
@@ -270,14 +270,31 @@ Definition milli (k : Z) : Q := k # 1000.
 Definition f64q (m e : Z) : Q :=
   if (0 <=? e)%Z then inject_Z (m * 2 ^ e) else Qmake m (Z.to_pos (2 ^ (- e))).
 
+(* compact constructors for case files (argument scopes follow the argument types) *)
+Inductive traw := TNone | TM (k : Z).          (* trust: absent | thousandths *)
+Inductive graw := GNone | G (g : N).           (* region: absent | id *)
+Inductive fraw := FNaN | FQ (m e : Z).         (* an observed f64: NaN/inf | m * 2^e *)
+Definition tq (t : traw) : option Q := match t with TNone => None | TM k => Some (milli k) end.
+Definition fq (x : fraw) : option Q := match x with FNaN => None | FQ m e => Some (f64q m e) end.
+Definition w (conf : bool) (t : traw) (g : graw) (lat : N) : resp :=
+  mkResp conf (tq t) (match g with GNone => None | G g => Some g end) lat.
+Definition O (valid : bool) (fails : list failure) (bft : bool) (regions : N) (ratio weighted : fraw)
+           (enforced : bool) (toc tof : bool * option failure) : obs :=
+  mkObs valid fails bft regions (fq ratio) (fq weighted) enforced toc tof.
+Definition cfg_log_only : cfg :=
+  mkCfg CG_MIN_PEERS CG_THR_WEIGHTED CG_THR_BFT CG_MIN_WITNESS_TRUST CG_MIN_REGIONS false.
+Definition with_strict (c : cfg) (s : bool) : cfg :=
+  mkCfg (c_min_peers c) (c_thr_weighted c) (c_thr_bft c) (c_min_trust c) (c_min_regions c) s.
+
 Definition pair_eqb (a b : bool * option failure) : bool :=
   Bool.eqb (fst a) (fst b) && ofail_eqb (snd a) (snd b).
 
-Definition case_t := (cfg * bool * list resp * option Q * obs)%type.
+Definition case_t := (cfg * bool * list resp * traw * obs)%type.
 
 (* model output = observed output *)
 Definition check_case (x : case_t) : bool :=
-  let '(c, attack, rs, cand, o) := x in
+  let '(c, attack, rs, cand0, o) := x in
+  let cand := tq cand0 in
   let m := validate_membership c attack rs cand in
   Bool.eqb (v_valid m) (o_valid o) && fails_eqb (v_fail m) (o_fail o) && Bool.eqb (v_bft m) (o_bft o)
   && (v_regions m =? o_regions o)%N && ratio_close (v_ratio m) (o_ratio o)
@@ -290,7 +307,8 @@ Definition check_case (x : case_t) : bool :=
    quorum / weighted-share specification holds; an accepted result carries no hard failure reason;
    the enforcement wrapper lets a rejected node through only in LogOnly mode *)
 Definition prop_case (x : case_t) : bool :=
-  let '(c, attack, rs, cand, o) := x in
+  let '(c, attack, rs, cand0, o) := x in
+  let cand := tq cand0 in
   Bool.eqb (o_valid o) (accept_spec c attack rs cand)
   && (if o_valid o
       then forallb (fun f => failure_eqb f InsufficientGeographicDiversity && negb attack) (o_fail o)
@@ -304,6 +322,8 @@ Definition nv_check_case (x : nvcase_t) : bool :=
   let s := nv_run ops in
   (nv_conf s =? oc)%N && (nv_deny s =? od)%N && (nv_total s =? ot)%N
   && Bool.eqb (nv_is_valid s) v && Bool.eqb (nv_is_valid_bft f s) vb && Bool.eqb (nv_sufficient f s) sw.
+Definition NV (ops : list nvop) (f : N) (conf den tot : N) (v vb sw : bool) : nvcase_t :=
+  (ops, f, (conf, den, tot, v, vb, sw)).
 (* strict majority; >= 2f+1; >= 3f+1 on the observed numbers *)
 Definition nv_prop_case (x : nvcase_t) : bool :=
   let '(ops, f, (oc, od, ot, v, vb, sw)) := x in
